@@ -12,7 +12,7 @@
    equals component i of the code's backward -- for every length, every real input, every upstream gradient g.   *)
 From Coq Require Import Reals Arith.
 From Coquelicot Require Import Coquelicot.
-From SG Require Import Analysis.Vector Gen.GenVecKernels Proofs.VecKernelProofs Proofs.VecKernelProofsLossFwd Proofs.VecKernelProofsLossBwd Proofs.VecKernelProofsBN.
+From SG Require Import Analysis.Vector Gen.GenVecKernels Proofs.VecKernelProofs Proofs.VecKernelProofsLossFwd Proofs.VecKernelProofsLossBwd Proofs.VecKernelProofsBNFwd Proofs.VecKernelProofsBN.
 Open Scope R_scope.
 
 (* the max-shift does not change the value: the generated forward equals the formula shifted by ANY constant *)
